@@ -301,7 +301,7 @@ FUNCTIONS = [
     ),
     dict(
         name="validate_signatures", file=AUTH, fn="validate_signatures", params=["env", "msg_hash", "proof"], modes=BOTH,
-        locals={"ACC": r"let mut (\w+) = 0u128;"},
+        locals={"ACC": r"let mut (\w+)(?:\s*:\s*\w+)? = 0(?:_?[ui]\d+)?;"},
         requires={"safety": [],
                   "notrap": ["weight_sum(proof_set($proof.signers@)) <= u128::MAX",
                              "$proof.threshold > 0",
@@ -335,7 +335,7 @@ FUNCTIONS = [
     ),
     dict(
         name="validate_signers", file=AUTH, fn="validate_signers", params=["env", "weighted_signers"], modes=SAFETY,
-        locals={"ACC": r"let mut (\w+) = 0u128;", "PREV": r"let mut (\w+) = BytesN::<32>::from_array\("},
+        locals={"ACC": r"let mut (\w+)(?:\s*:\s*\w+)? = 0(?:_?[ui]\d+)?;", "PREV": r"let mut (\w+) = BytesN::<32>::from_array\("},
         ensures=[dict(id="C03.validate_signers.wellformed", modes=SAFETY, clauses=[
             "r is Ok ==> $weighted_signers.signers@.len() > 0",
             "r is Ok ==> lex_lt(zeros32(), $weighted_signers.signers@[0].signer@)",
